@@ -41,7 +41,7 @@ def _assert_numerical_iterable(item, item_name: str = 'iterable'):
     """Assert it is a list, tuple, or numpy array, and that it has numerical values"""
     _assert_valid_array_type(item, item_name)
     item_copy = np.array(item)
-    if not(item_copy.dtype == np.dtype(int) or item_copy.dtype == np.dtype(float)):
+    if not(np.issubdtype(item_copy.dtype, np.integer) or np.issubdtype(item_copy.dtype, np.floating)):
         raise TypeError(f"{item_name} must have numerical values. Got {item_copy.dtype.name}")
 
 def _assert_same_shapes(item1, item2, item_names: list = None):
